@@ -282,7 +282,10 @@ def tryresolve(tree):
     if ast.unparse(body[0].test) != 'not strategy' or not (len(body[0].body) == 1 and isinstance(body[0].body[0], ast.Return) and ast.unparse(body[0].body[0]) == 'return None'):
         fail('tryresolve: first statement is not `if not strategy: return None`')
     a1, a2 = ast.unparse(body[1].test), ast.unparse(body[2].test)
-    if a1 != 'local_diff and remote_diff' or a2 != 'local_diff != remote_diff': fail('tryresolve: asserts are %r, %r' % (a1, a2))
+    # the second assert compares the two diffs: Python != (as pinned) or the strict JSON comparison (after the lead's fix);
+    # which one is a source fact of the merge-core model (Gen/MergeFacts.v); both shapes are accepted here
+    if a1 != 'local_diff and remote_diff' or a2 not in ('local_diff != remote_diff', 'not strict_equals(local_diff, remote_diff)'):
+        fail('tryresolve: asserts are %r, %r' % (a1, a2))
     if ast.unparse(body[3]) != 'action = None': fail('tryresolve: action is not initialised to None')
     outer = body[4]
     if ast.unparse(outer.test) != 'strategy' or outer.orelse or len(outer.body) != 1 or not isinstance(outer.body[0], ast.If): fail('tryresolve: `if strategy:` wrapper shape')
@@ -375,10 +378,12 @@ def apl_variant(tree):
     """adjust_patch_level has one of two known bodies (as pinned / as repaired by notes/C03-fix-2.diff); collect_diffs as pinned"""
     body = [ast.unparse(st) for st in strip_doc(fdef(tree, 'adjust_patch_level').body)]
     cd = [ast.unparse(st) for st in strip_doc(fdef(tree, 'collect_diffs').body)]
-    if cd != COLLECT_DIFFS: fail('collect_diffs has an unrecognised body')
+    # an unrecognised body is reported as APLOther: the Gallina model then has no claim about the clear-all arm and the executed
+    # correspondence of C03 (clear_all_correspondence) reports the disagreement -- without failing the translator for every property
+    if cd != COLLECT_DIFFS: return 'APLOther'
     if body == APL_PINNED: return 'APLPinned'
     if body == APL_FIXED: return 'APLFixed'
-    fail('adjust_patch_level has an unrecognised body')
+    return 'APLOther'
 
 
 def countering(tree):
